@@ -50,8 +50,8 @@ Definition chk (prop fam : bytes) (c o : value) : bool :=
   else if beq prop (B "C15") then (if beq fam (B "slot") then chk_C15 c o else if beq fam (B "slotm") then chk_C15m c o else true)
   else if beq prop (B "C17") then chk_C17 fam c o
   else if beq prop (B "C14") then (if beq fam (B "copier") then chk_C14 c o else true)
-  else if beq prop (B "C18") then (if beq fam (B "sock") then chk_C18 c o else true)
-  else if beq prop (B "C19") then (if beq fam (B "sock") || beq fam (B "sockl") then chk_C19_sock c o else if beq fam (B "srv") then chk_C19_srv c o else if beq fam (B "socknet") then chk_C19_net c o else true)
+  else if beq prop (B "C18") then (if beq fam (B "sock") then chk_C18 c o else if beq fam (B "stream") then chk_stream c o else true)
+  else if beq prop (B "C19") then (if beq fam (B "sock") || beq fam (B "sockl") then chk_C19_sock c o else if beq fam (B "srv") then chk_C19_srv c o else if beq fam (B "socknet") then chk_C19_net c o else if beq fam (B "tls") then chk_C20 c o else true)
   else true.
 
 (* decimal I/O for the driver (arbitrary precision) *)
